@@ -56,8 +56,9 @@ class PackageLoader(BaseLoader):
         template_path = Path(template_name)
 
         # Don't build a path that escapes package/package_path.
-        # Does ".." appear in template_name?
-        if os.path.pardir in template_path.parts:
+        # Does ".." appear in template_name? Is it absolute? Joining an absolute
+        # path to a package path discards the package path.
+        if os.path.pardir in template_path.parts or template_path.is_absolute():
             raise TemplateNotFoundError(template_name)
 
         # Add suffix self.ext if template name does not have a suffix.
